@@ -28,6 +28,11 @@ GRIDS_THOROUGH = GRIDS_QUICK + [((3, 3), "OFSN"), ((3, 3), "OFBM"), ((3, 4), "OF
                                 ((2, 4), "OFSBN"), ((4, 4), "OF"), ((2, 3), "OFSBNMETW"), ((3, 5), "OF"), ((3, 5), "OS")]
 
 
+CLIPS = [[4.0, [4.0]], [4.5, [4.5, 6.0]], [5.0, [5.0, 6.0]], [6.0, [6.0]]]       # [flood, seeds]
+CLIP_GRIDS = [((1, 1), "OFSBNMETW"), ((1, 2), "OFSBNMETW"), ((1, 3), "OFSBNMET"), ((2, 2), "OEFTSNM"), ((2, 3), "OEFTS")]
+CLIP_GRIDS_T = [((3, 3), "OET"), ((3, 3), "OFS"), ((2, 4), "OEFTS")]
+
+
 def grids(tier):
     return GRIDS_QUICK if tier == "quick" else GRIDS_THOROUGH
 
@@ -44,6 +49,12 @@ def cases(tier, seed):
         n = len(a) ** (g[0] * g[1])
         for b in range(0, n, BLOCK):
             yield "islands", dict(shape=list(g), alphabet=a, start=b, stop=min(n, b + BLOCK))
+    # other threshold pairs, including flood == seed (the property quantifies over all 0 < flood <= seed): the letters
+    # E=4, F=4.5, T=5, S=6 sit exactly on these thresholds
+    for g, a in CLIP_GRIDS if tier == "quick" else CLIP_GRIDS + CLIP_GRIDS_T:
+        n = len(a) ** (g[0] * g[1])
+        for b in range(0, n, BLOCK):
+            yield "islands", dict(shape=list(g), alphabet=a, start=b, stop=min(n, b + BLOCK), clips=CLIPS)
     for rot, arm, off, level in itertools.product(range(4), (8, 11), (0, 1, 2), (4.2, 4.9)):
         yield "components", dict(rot=rot, arm=arm, off=off, level=level)
 
@@ -94,18 +105,19 @@ def ev_islands(case, ctx):
             k //= base
         snr = vals[np.array(digits[::-1])].reshape(shape)
         word = "".join(alpha[d] for d in digits[::-1])
-        if np.any(np.abs(np.nan_to_num(snr)) >= FLOOD):
+        clips = case.get("clips") or [[FLOOD, list(SEEDS)]]
+        if np.any(np.abs(np.nan_to_num(snr)) >= min(c[0] for c in clips)):
             ctx.nontrivial_n(1)
-        for variant in (0, 1, 2):
+        for variant, (FLOOD_, SEEDS_) in itertools.product((0, 1, 2), clips):
             im, bkg, rms = realise(snr, variant)
             res = {}
-            for seed in SEEDS:
+            for seed in SEEDS_:
                 ctx.count("find_islands_call")
-                sig = "%dx%d:%s,v%d,seed%g" % (shape[0], shape[1], word, variant, seed)
-                ref = floodfill.islands(im, bkg, rms, seed, FLOOD)
+                sig = "%dx%d:%s,v%d,seed%g" % (shape[0], shape[1], word, variant, seed) + ("" if FLOOD_ == FLOOD else ",flood%g" % FLOOD_)
+                ref = floodfill.islands(im, bkg, rms, seed, FLOOD_)
                 try:
                     with np.errstate(invalid="ignore"):
-                        isl = sfm.find_islands(im.copy(), bkg.copy(), rms.copy(), seed_clip=seed, flood_clip=FLOOD)
+                        isl = sfm.find_islands(im.copy(), bkg.copy(), rms.copy(), seed_clip=seed, flood_clip=FLOOD_)
                 except Exception as e:
                     ctx.violation("find_islands raised %r on snr=%s variant %d seed %g" % (e, word, variant, seed),
                                   "raise|" + sig)
@@ -123,7 +135,7 @@ def ev_islands(case, ctx):
                     rp = set(p for p, b in ref)
                     kind = "islands" if op != rp else "bbox"
                     ctx.violation("snr=%s (%dx%d, variant %d, seed %g, flood %g): got %r expected %r" % (
-                        word, shape[0], shape[1], variant, seed, FLOOD, fmt(obs), fmt(ref)), "%s_differ|%s" % (kind, sig))
+                        word, shape[0], shape[1], variant, seed, FLOOD_, fmt(obs), fmt(ref)), "%s_differ|%s" % (kind, sig))
                 # disjoint, no blank member (independent of the oracle)
                 allpix = [p for s, b in obs for p in s]
                 if len(allpix) != len(set(allpix)):
@@ -131,8 +143,8 @@ def ev_islands(case, ctx):
                 if any(not np.isfinite(im[p]) for p in allpix if 0 <= p[0] < shape[0] and 0 <= p[1] < shape[1]):
                     ctx.violation("blank pixel inside an island (snr=%s)" % word, "blank_member|" + sig)
             if len(res) == 2:
-                hi = set(p for p, b in res[SEEDS[1]])
-                lo = set(p for p, b in res[SEEDS[0]])
+                hi = set(p for p, b in res[SEEDS_[1]])
+                lo = set(p for p, b in res[SEEDS_[0]])
                 if not hi <= lo:
                     ctx.violation("raising the seed added islands (snr=%s variant %d)" % (word, variant),
                                   "monotone|%dx%d:%s,v%d" % (shape[0], shape[1], word, variant))
